@@ -243,7 +243,9 @@ def run_t1(rep: Report, modnames, pid=None, quick=True, monitor_cases=200):
             if r["canary"] is not None:
                 rep.canaries_total += 1
                 rep.canaries_refuted += 1 if r["canary"] else 0
-                if not r["canary"]:
+                # (after a failed obligation the path condition contains the failed fact as an
+                # assumption, so an inconsistent state there says nothing about the contract)
+                if not r["canary"] and all(o["status"] == "discharged" for o in r["obligations"]):
                     rep.crash(f"canary of {c.target} verified: contract or encoding assumes false")
             rep.pre_total += 1
             rep.pre_sat += 0 if r["pre_sat"] == "unsat" else 1
